@@ -1380,11 +1380,44 @@ def m_vec_extend(I, a, t, c):
 
 
 # ---- HashMap<K, V> : MapV, a python dict key -> Cell
+HASH_ORDER = ['insertion']        # how hash maps / sets are iterated: 'insertion' (default) or 'reverse' (C11: results must not depend on it)
+
+
+class HashDict(dict):
+    """storage of a modelled HashMap / HashSet / DashMap: iteration order follows HASH_ORDER, so that one pipeline can be interpreted
+    under two different iteration orders (each real process draws fresh hash seeds)"""
+    __slots__ = ()
+
+    @staticmethod
+    def _order(v):
+        o = HASH_ORDER[0]
+        if o == 'reverse':
+            return v[::-1]
+        if o.startswith('shuffle:'):          # a fixed pseudo-random permutation per seed and length
+            import random as _r
+            idx = list(range(len(v)))
+            _r.Random(int(o[8:]) * 7919 + len(v)).shuffle(idx)
+            return [v[i] for i in idx]
+        return v
+
+    def values(self):
+        return self._order(list(dict.values(self)))
+
+    def items(self):
+        return self._order(list(dict.items(self)))
+
+    def keys(self):
+        return self._order(list(dict.keys(self)))
+
+    def __iter__(self):
+        return iter(self.keys())
+
+
 class MapV:
     __slots__ = ('d',)
 
     def __init__(self):
-        self.d = {}
+        self.d = HashDict()
 
     def __repr__(self):
         return 'Map{%s}' % ', '.join('%r: %r' % (kv, c.v) for kv, c in self.d.values())
@@ -1415,10 +1448,18 @@ def m_map_new(I, a, t, c):
 
 @model('hashbrown::HashMap::entry', 'hashbrown::HashMap::<K, V, S, A>::entry')
 def m_map_entry(I, a, t, c):
-    return Agg('entry', 0, [a[0], a[1]])
+    # Entry::Occupied = variant 0, Entry::Vacant = variant 1 (decided when the entry is taken, as in the library); the payload is the
+    # (map reference, key) pair all entry methods work on
+    m = I.load(a[0])
+    occupied = isinstance(m, MapV) and _mkey(a[1]) in m.d
+    return Agg('adt:hashbrown::hash_map::Entry', 0 if occupied else 1, [Agg('entry', 0, [a[0], a[1]])])
 
 
 def _entry(I, e):
+    if isinstance(e, RefV):
+        e = deref_all(I, e)
+    if e.kind.startswith('adt:'):
+        e = e.fields[0]
     m = I.load(e.fields[0])
     if not isinstance(m, MapV):
         raise Unsupported('entry on %r' % (m,))
@@ -1863,7 +1904,7 @@ class SetV:
     __slots__ = ('d',)
 
     def __init__(self, items=()):
-        self.d = {}
+        self.d = HashDict()
         for x in items:
             self.d[_skey(x)] = x
 
